@@ -76,6 +76,10 @@ fn history(d1: &Map<String, Value>, d2: &Map<String, Value>, d3: &Map<String, Va
     b.m.commit(None).expect("commit b");
     r.pull(&b);
     b.pull(&r);
+    // stray items with a block extension whose names are not block identifiers: one sorts before, one after the real ones
+    r.ad.write().unwrap().write_object("journal.delta", b"{}").unwrap();
+    r.ad.write().unwrap().write_object("0junk.delta", b"x").unwrap();
+    r.m.refresh().expect("refresh with stray items in storage");
     let reopened = Melda::new(r.ad.clone()).expect("reopen");
     assert!(visible(&reopened) == visible(&r.m), "a replica reopened on the same storage differs (cache / order dependent durability)");
     format!("{} || {} || {}", visible(&r.m), visible(&reopened), visible(&b.m))
